@@ -18,6 +18,7 @@ PROPS = {
     "C17": P(race={"quick": True, "thorough": True}, shards={"quick": 6, "thorough": 12}, gomaxprocs=[4, 2, 8, 16, 3, 6], shard_timeout={"quick": 900, "thorough": 3000}),
     "C11": P(shard_timeout={"quick": 900, "thorough": 3000}),
     "C10": P(shard_timeout={"quick": 1200, "thorough": 3000}),
+    "C16": P(shards={"quick": 8, "thorough": 16}, level="fault_enumeration"),
     "C05": P(),
     "C06": P(),
     "C20": P(),
